@@ -1184,17 +1184,22 @@ impl Machine {
                         let vs = match &*rv.borrow() {
                             UpValue::Open(i) => {
                                 let upper_base = cls.base_ptr as usize;
-                                let (_range, rawv) = self.get_open_upvalue(upper_base, *i);
-                                let rawv: &[RawVal] = unsafe { std::mem::transmute(rawv) };
-                                rawv
+                                let (range, _rawv) = self.get_open_upvalue(upper_base, *i);
+                                Err(range)
                             }
                             UpValue::Closed(rawval, _) => {
                                 let rawv: &[RawVal] =
                                     unsafe { std::mem::transmute(rawval.as_slice()) };
-                                rawv
+                                Ok(rawv)
                             }
                         };
-                        self.set_stack_range(dst as i64, vs);
+                        match vs {
+                            // An open upvalue lives on the stack itself: copy within the stack
+                            // (growing it first if needed) instead of holding a slice into it,
+                            // which a reallocation in `set_stack_range` would leave dangling.
+                            Err(range) => self.move_stack_range(dst as i64, range),
+                            Ok(vs) => self.set_stack_range(dst as i64, vs),
+                        }
                     };
                 }
                 Instruction::SetUpValue(index, src, size) => {
